@@ -83,7 +83,7 @@ type Store struct {
 	nfresh int
 	// AbstractMul: replace bvmul/bvudiv/bvurem/bvsdiv/bvsrem of two non-constant
 	// operands by uninterpreted functions (sound for unsat).
-	AbstractMul bool
+	AbstractMul     bool
 	UsedAbstraction bool
 }
 
